@@ -109,6 +109,7 @@ impl Op {
 fn alphabet(name: &str) -> Vec<Op> {
     match name {
         "small" => vec![Op::W(0, 0), Op::W(1, 1), Op::B((0, 0), (1, 0)), Op::Rot, Op::Trunc, Op::Reopen, Op::ReopenW(0, 0)],
+        "medium" => vec![Op::W(0, 0), Op::W(0, 1), Op::W(1, 0), Op::W(1, 1), Op::B((0, 0), (1, 0)), Op::B((0, 1), (0, 1)), Op::Rot, Op::Trunc, Op::Reopen, Op::ReopenW(0, 0)],
         _ => vec![
             Op::W(0, 0),
             Op::W(0, 1),
@@ -1113,8 +1114,8 @@ fn fault_state(h: &mut Harness, rep: &mut Reporter, ops: &[Op], only: Option<Fau
 
 /// distinct final file shapes (segment numbers + (table,page) sequence per segment) of all histories up to `depth`,
 /// each with the first (shortest) history producing it — computed on the model alone, identically in every worker
-fn fault_seeds(depth: usize) -> Vec<Vec<Op>> {
-    let ab = alphabet("full");
+fn fault_seeds(alpha: &str, depth: usize) -> Vec<Vec<Op>> {
+    let ab = alphabet(alpha);
     let mut seen: BTreeSet<Vec<(u64, Vec<(u8, u8)>)>> = BTreeSet::new();
     let mut out = Vec::new();
     let mut frontier: Vec<(Vec<Op>, Model)> = vec![(vec![], Model::new())];
@@ -1176,15 +1177,18 @@ impl Check for C03 {
         for c in ["histories", "frames_written", "rotations", "truncations", "reopens", "reopen_appends", "corruptions_tried", "frames_applied_on_recovery", "fault_states", "fault_states_with_frames_in_several_segments", "corruptions_damaging_a_frame", "histories_ending_with_multiple_segments"] {
             rep.expect_nonzero(c);
         }
-        let d_full = ctx.opt("depth").and_then(|s| s.parse().ok()).unwrap_or(ctx.tier.pick(5usize, 6usize));
-        let d_nosync = ctx.opt("depth_nosync").and_then(|s| s.parse().ok()).unwrap_or(ctx.tier.pick(4usize, 5usize));
+        let d_full = ctx.opt("depth").and_then(|s| s.parse().ok()).unwrap_or(ctx.tier.pick(4usize, 5usize));
+        let d_nosync = ctx.opt("depth_nosync").and_then(|s| s.parse().ok()).unwrap_or(ctx.tier.pick(3usize, 4usize));
+        let d_medium = ctx.opt("depth_medium").and_then(|s| s.parse().ok()).unwrap_or(ctx.tier.pick(5usize, 6usize));
         let d_small = ctx.opt("depth_small").and_then(|s| s.parse().ok()).unwrap_or(ctx.tier.pick(6usize, 7usize));
         let d_fault = ctx.opt("depth_fault").and_then(|s| s.parse().ok()).unwrap_or(ctx.tier.pick(3usize, 4usize));
-        let d_rp = ctx.opt("depth_read_page").and_then(|s| s.parse().ok()).unwrap_or(ctx.tier.pick(4usize, 5usize));
+        let d_rp = ctx.opt("depth_read_page").and_then(|s| s.parse().ok()).unwrap_or(ctx.tier.pick(3usize, 4usize));
         rep.bound("read_page_oracle_evaluated_up_to_history_length", json!(d_rp));
         rep.bound("history_depth_full_alphabet_fullsync", json!(d_full));
         rep.bound("history_depth_full_alphabet_nosync", json!(d_nosync));
         rep.bound("history_depth_small_alphabet_fullsync", json!(d_small));
+        rep.bound("history_depth_medium_alphabet_fullsync", json!(d_medium));
+        rep.bound("alphabet_medium", json!(enc_ops(&alphabet("medium"))));
         rep.bound("fault_history_depth", json!(d_fault));
         rep.bound("alphabet_full", json!(enc_ops(&alphabet("full"))));
         rep.bound("alphabet_small", json!(enc_ops(&alphabet("small"))));
@@ -1203,7 +1207,9 @@ impl Check for C03 {
         }
         if complete && (only.is_empty() || only == "fault") {
             // part 2
-            let seeds = fault_seeds(d_fault);
+            let a_fault = ctx.opt("alphabet_fault").unwrap_or(ctx.tier.pick("medium", "full")).to_string();
+            rep.bound("fault_history_alphabet", json!(a_fault));
+            let seeds = fault_seeds(&a_fault, d_fault);
             rep.bound("fault_file_shapes", json!(seeds.len()));
             for (i, ops) in seeds.iter().enumerate() {
                 if !ctx.mine(i as u64) {
@@ -1219,6 +1225,9 @@ impl Check for C03 {
         }
         if complete && (only.is_empty() || only == "nosync") {
             complete &= explore(ctx, &mut h, rep, "full", true, d_nosync, perturb, d_rp.min(d_nosync.saturating_sub(1)));
+        }
+        if complete && (only.is_empty() || only == "medium") {
+            complete &= explore(ctx, &mut h, rep, "medium", false, d_medium, perturb, d_rp);
         }
         if complete && (only.is_empty() || only == "small") {
             explore(ctx, &mut h, rep, "small", false, d_small, perturb, d_rp);
